@@ -113,6 +113,14 @@ def run(ctx: Ctx):
     rng = ctx.rng
     taus = {v: make_taus(v) for v in VERSIONS}
     check_translator(ctx, taus)
+    # what the calling program logs is inert (shared stream harness/logmode.py): explicit deviates and internally drawn ones
+    import logmode
+    bl_ = np.radians(rng.uniform(0.0, 60.0, 400)); bl_[:3] = [0.0, np.radians(0.05), np.radians(42.0)]
+    ll_ = rng.uniform(6.0, 12.0, 400); ul_ = rng.uniform(0.0, 1.0, 400)
+    for v_ in VERSIONS:
+        logmode.check(ctx, f"Taus.tau_energy [v{v_}]", lambda v_=v_: (np.asarray(taus[v_].tau_energy(bl_.copy(), ll_.copy(), ul_.copy())),
+                                                                      np.asarray(taus[v_].tau_energy(bl_.copy(), ll_.copy()))),
+                      {"version": v_, "events": 400})
     for n_big in ([int(rng.integers(65537, 90000))] if not ctx.thorough else [65537, 131073, 250001]):
         check_sampler_big(ctx, "3", taus["3"], n_big)
     n = 20000 if ctx.thorough else 1500
